@@ -9,14 +9,14 @@ import numpy as np
 from .. import common, exact, history, kernels, mpsgen
 from ..common import Corr
 
-RULE = ('random histories (quick: 8 steps, thorough: 30) over {orthonormalize MPS/MPO, compress, +, -, @, apply_operator, zero_qnumbers, copy} on pools of 2 MPS + 2 MPO '
+RULE = ('random histories (quick: 8 steps, thorough: 30) over {orthonormalize MPS/MPO, compress, +, -, @, apply_operator, zero_qnumbers, copy, from_vector, TDVP 1/2-site, DMRG 1/2-site} on pools of 2 MPS + 2 MPO '
         '(U(1) and encoded-pair charges, int/float/complex); distinct = (sequence of op kinds, L, d); every step compared')
 
 
 def _shard(name, shard, nshards, tier, seed):
     c = Corr(name)
     rng = np.random.default_rng([seed, shard, 2])
-    n = (160 if tier == 'quick' else 800) // nshards + 1
+    n = (800 if tier == 'quick' else 3200) // nshards + 1
     nsteps = 8 if tier == 'quick' else 30
     ops, impls, sigs = [], [], []
     for _ in range(n):
@@ -120,8 +120,8 @@ def oracle_history(rng, nsteps):
                         f'lengths of the bond dimensions: {[len(q) for q in pool[-1].qD]} vs {pool[-1].bond_dims}'), log
     for _ in range(nsteps):
         op = history.choose_op(rng, pool, allow_invalid=0.0)
-        log.append({k: v for k, v in op.items()})
-        tgt = op['i'] if op['h'] in ('ortho_mps', 'ortho_mpo', 'compress') else None
+        log.append({k: (str(v) if isinstance(v, complex) else [str(x) for x in v] if isinstance(v, list) else v) for k, v in op.items()})
+        tgt = op['i'] if op['h'] in ('ortho_mps', 'ortho_mpo', 'compress') + history.INPLACE_EVO else None
         before = None
         if tgt is not None:
             o = pool[tgt]
@@ -145,6 +145,20 @@ def oracle_history(rng, nsteps):
                 pool.append(ptn.apply_operator(pool[op['i']], pool[op['j']]))
             elif h == 'zero_q':
                 pool[op['i']].zero_qnumbers()
+            elif h == 'from_vector':
+                pool.append(ptn.MPS.from_vector(op['d'], op['nsites'], np.array(op['v']), tol=op['tol']))
+            elif h in history.INPLACE_EVO:
+                if before[2] == 0:
+                    continue
+                H, psi = pool[op['iH']], pool[op['i']]
+                if h == 'tdvp1':
+                    ptn.integrate_local_singlesite(H, psi, op['dt'], op['numsteps'], numiter_lanczos=max(op['numiter'], 4))
+                elif h == 'tdvp2':
+                    ptn.integrate_local_twosite(H, psi, op['dt'], op['numsteps'], numiter_lanczos=max(op['numiter'], 4), tol_split=op['tol'])
+                elif h == 'dmrg1':
+                    ptn.calculate_ground_state_local_singlesite(H, psi, op['numsteps'], numiter_lanczos=max(op['numiter'], 4))
+                else:
+                    ptn.calculate_ground_state_local_twosite(H, psi, op['numsteps'], numiter_lanczos=max(op['numiter'], 4), tol_split=op['tol'])
             elif h == 'copy':
                 o = pool[op['i']]
                 pool.append(mpsgen.copy_mpo(o) if type(o).__name__ == 'MPO' else mpsgen.copy_mps(o))
